@@ -194,4 +194,363 @@ theorem ends_set (cs : CSet) (s : List Char) :
       | c :: t => if cs.has c = true then [t] else [] := by
   cases s <;> simp [Re.ends]
 
+/-! ## general facts: results are never longer than the input; fuel irrelevance; bounded repetitions -/
+
+theorem flatMap_congr_mem {α β : Type} (l : List α) (f g : α → List β) (h : ∀ a ∈ l, f a = g a) :
+    l.flatMap f = l.flatMap g := by
+  induction l with
+  | nil => rfl
+  | cons a t ih =>
+    simp only [List.flatMap_cons]
+    rw [h a (by simp), ih (fun x hx => h x (by simp [hx]))]
+
+theorem repEnds_length_le (step : List Char → List (List Char)) (g : Bool)
+    (hstep : ∀ s e, e ∈ step s → e.length ≤ s.length) :
+    ∀ (f mn : Nat) (mx : Option Nat) (s e : List Char), e ∈ repEnds step g f mn mx s → e.length ≤ s.length := by
+  intro f
+  induction f with
+  | zero => intro mn mx s e h; simp [repEnds] at h
+  | succ f ih =>
+    intro mn mx s e h
+    simp only [repEnds] at h
+    have hmore : ∀ e, e ∈ (if (mx == some 0) = true then ([] : List (List Char)) else
+        (step s).flatMap (fun e' => if e'.length < s.length then repEnds step g f (mn - 1) (mx.map (· - 1)) e'
+          else [e'])) → e.length ≤ s.length := by
+      intro e he
+      split at he
+      · simp at he
+      · rw [List.mem_flatMap] at he
+        obtain ⟨e', he', hin⟩ := he
+        have h1 := hstep s e' he'
+        split at hin
+        · have := ih _ _ _ _ hin; omega
+        · simp at hin; subst hin; exact h1
+    have hstop : ∀ e, e ∈ (if (mn == 0) = true then [s] else ([] : List (List Char))) → e.length ≤ s.length := by
+      intro e he; split at he <;> simp at he; subst he; exact Nat.le_refl _
+    cases g
+    · simp only [Bool.false_eq_true, ↓reduceIte, List.mem_append] at h
+      rcases h with h | h
+      · exact hstop e h
+      · exact hmore e h
+    · simp only [↓reduceIte, List.mem_append] at h
+      rcases h with h | h
+      · exact hmore e h
+      · exact hstop e h
+
+theorem ends_length_le : ∀ (r : Re) (s e : List Char), e ∈ r.ends s → e.length ≤ s.length := by
+  intro r
+  induction r with
+  | eps => intro s e h; simp [Re.ends] at h; subst h; exact Nat.le_refl _
+  | set cs =>
+    intro s e h
+    cases s with
+    | nil => simp [Re.ends] at h
+    | cons c t =>
+      simp only [Re.ends] at h
+      split at h <;> simp at h
+      subst h; simp
+  | seq a b iha ihb =>
+    intro s e h
+    simp only [Re.ends, List.mem_flatMap] at h
+    obtain ⟨e', h1, h2⟩ := h
+    have := iha _ _ h1; have := ihb _ _ h2; omega
+  | alt a b iha ihb =>
+    intro s e h
+    simp only [Re.ends, List.mem_append] at h
+    rcases h with h | h
+    · exact iha _ _ h
+    · exact ihb _ _ h
+  | rep r mn mx g ih =>
+    intro s e h
+    simp only [Re.ends] at h
+    exact repEnds_length_le _ g (fun s e he => ih s e he) _ _ _ _ _ h
+  | grp i r ih => intro s e h; simp only [Re.ends] at h; exact ih _ _ h
+  | bref i ci => intro s e h; simp [Re.ends] at h
+  | look neg r ih =>
+    intro s e h
+    simp only [Re.ends] at h
+    split at h <;> split at h <;> simp at h <;> (subst h; exact Nat.le_refl _)
+  | bol ml => intro s e h; simp [Re.ends] at h
+  | eol ml => intro s e h; simp [Re.ends] at h
+  | wordb neg => intro s e h; simp [Re.ends] at h
+
+/-- a pattern that starts with a one-character set always makes progress -/
+theorem seq_set_progress (cs : CSet) (y : Re) (s e : List Char) (h : e ∈ (Re.seq (.set cs) y).ends s) :
+    e.length < s.length := by
+  rw [ends_seq_set] at h
+  cases s with
+  | nil => simp at h
+  | cons c t =>
+    simp only at h
+    split at h
+    · have := ends_length_le y t e h; simp; omega
+    · simp at h
+
+theorem repEnds_fuel (step : List Char → List (List Char)) (g : Bool) :
+    ∀ (f f' mn : Nat) (mx : Option Nat) (s : List Char), s.length < f → s.length < f' →
+      repEnds step g f mn mx s = repEnds step g f' mn mx s := by
+  intro f
+  induction f with
+  | zero => intro f' mn mx s h; omega
+  | succ f ih =>
+    intro f' mn mx s h h'
+    cases f' with
+    | zero => omega
+    | succ f' =>
+      simp only [repEnds]
+      have : (step s).flatMap (fun e' => if e'.length < s.length then repEnds step g f (mn - 1) (mx.map (· - 1)) e'
+            else [e']) =
+          (step s).flatMap (fun e' => if e'.length < s.length then repEnds step g f' (mn - 1) (mx.map (· - 1)) e'
+            else [e']) := by
+        apply flatMap_congr_mem
+        intro e' _
+        by_cases hl : e'.length < s.length
+        · rw [if_pos hl, if_pos hl]; exact ih f' _ _ e' (by omega) (by omega)
+        · rw [if_neg hl, if_neg hl]
+      rw [this]
+
+theorem repEnds_exact_step (step : List Char → List (List Char)) (g : Bool) (f k : Nat) (s : List Char) :
+    repEnds step g (f + 1) (k + 1) (some (k + 1)) s =
+      (step s).flatMap (fun e' => if e'.length < s.length then repEnds step g f k (some k) e' else [e']) := by
+  simp only [repEnds]; cases g <;> simp
+
+theorem repEnds_opt_step (step : List Char → List (List Char)) (f : Nat) (s : List Char) :
+    repEnds step true (f + 1) 0 (some 1) s =
+      (step s).flatMap (fun e' => if e'.length < s.length then repEnds step true f 0 (some 0) e' else [e']) ++ [s] := by
+  simp only [repEnds]; simp
+
+theorem flatMap_singleton' {α : Type} (l : List α) : l.flatMap (fun e => [e]) = l := by
+  induction l with
+  | nil => rfl
+  | cons a t ih => simp [List.flatMap_cons, ih]
+
+/-- `x?` (greedy) when every match of `x` consumes something: the matches of `x`, then the empty match -/
+theorem ends_opt_progress (x : Re) (s : List Char) (hp : ∀ e ∈ x.ends s, e.length < s.length) :
+    (Re.opt x).ends s = x.ends s ++ [s] := by
+  unfold Re.opt
+  simp only [Re.ends]
+  rw [repEnds_opt_step]
+  have h2 : (x.ends s).flatMap (fun e' => if e'.length < s.length then
+        repEnds (fun y => x.ends y) true s.length 0 (some 0) e' else [e']) =
+        (x.ends s).flatMap (fun e' => [e']) := by
+    apply flatMap_congr_mem
+    intro e' he'
+    have hl := hp e' he'
+    rw [if_pos hl]
+    cases hs : s.length with
+    | zero => omega
+    | succ n => simp [repEnds]
+  rw [h2, flatMap_singleton']
+
+theorem ends_rep_exact_zero (r : Re) (g : Bool) (s : List Char) : (Re.rep r 0 (some 0) g).ends s = [s] := by
+  simp only [Re.ends, repEnds]; cases g <;> simp
+
+theorem ends_rep_exact_succ (r : Re) (g : Bool) (k : Nat) (s : List Char)
+    (hp : ∀ e ∈ r.ends s, e.length < s.length) :
+    (Re.rep r (k + 1) (some (k + 1)) g).ends s = (r.ends s).flatMap (fun e => (Re.rep r k (some k) g).ends e) := by
+  simp only [Re.ends]
+  rw [repEnds_exact_step]
+  apply flatMap_congr_mem
+  intro e' he'
+  have hl := hp e' he'
+  rw [if_pos hl]
+  exact repEnds_fuel _ g _ _ _ _ _ hl (by omega)
+
+/-! ## deterministic pieces: patterns with at most one way to match -/
+
+/-- exactly `n` members of `C` -/
+def takeN (C : Char → Bool) : Nat → List Char → Option (List Char)
+  | 0, s => some s
+  | _+1, [] => none
+  | n+1, c :: t => if C c = true then takeN C n t else none
+
+theorem repSet_exact (C : Char → Bool) : ∀ (n : Nat) (s : List Char),
+    repSet C n (some n) s = (takeN C n s).toList := by
+  intro n
+  induction n with
+  | zero => intro s; cases s <;> simp [repSet, takeN]
+  | succ n ih =>
+    intro s
+    cases s with
+    | nil => simp [repSet, takeN]
+    | cons c t =>
+      by_cases hc : C c = true
+      · simp [repSet, takeN, hc, ih t]
+      · simp [repSet, takeN, hc]
+
+theorem takeN_some (C : Char → Bool) : ∀ (n : Nat) (s e : List Char),
+    takeN C n s = some e ↔ ∃ w, s = w ++ e ∧ w.length = n ∧ ∀ c ∈ w, C c = true := by
+  intro n
+  induction n with
+  | zero =>
+    intro s e
+    simp only [takeN, Option.some.injEq]
+    constructor
+    · rintro rfl; exact ⟨[], rfl, rfl, by simp⟩
+    · rintro ⟨w, h, hl, _⟩
+      have : w = [] := List.eq_nil_of_length_eq_zero hl
+      subst this; simpa using h
+  | succ n ih =>
+    intro s e
+    cases s with
+    | nil =>
+      simp only [takeN]
+      constructor
+      · intro h; simp at h
+      · rintro ⟨w, h, hl, _⟩
+        have := congrArg List.length h; simp at this; omega
+    | cons c t =>
+      simp only [takeN]
+      by_cases hc : C c = true
+      · rw [if_pos hc, ih]
+        constructor
+        · rintro ⟨w, h, hl, hw⟩
+          refine ⟨c :: w, by simp [h], by simp [hl], ?_⟩
+          intro x hx; simp at hx; rcases hx with rfl | hx
+          · exact hc
+          · exact hw x hx
+        · rintro ⟨w, h, hl, hw⟩
+          cases w with
+          | nil => simp at hl
+          | cons a w' =>
+            simp at h
+            exact ⟨w', h.2, by simpa using hl, fun x hx => hw x (by simp [hx])⟩
+      · rw [if_neg hc]
+        constructor
+        · intro h; simp at h
+        · rintro ⟨w, h, hl, hw⟩
+          cases w with
+          | nil => simp at hl
+          | cons a w' =>
+            simp at h
+            exact absurd (h.1 ▸ hw a (by simp)) hc
+
+/-- `r` has at most one match at every position, given by `f` -/
+def Det (r : Re) (f : List Char → Option (List Char)) : Prop := ∀ s, r.ends s = (f s).toList
+
+theorem det_exact_set (cs : CSet) (n : Nat) : Det (Re.exactly n (.set cs)) (takeN cs.has n) := by
+  intro s; unfold Re.exactly; rw [ends_rep_set, repSet_exact]
+
+def expect (C : Char → Bool) : List Char → Option (List Char)
+  | [] => none
+  | c :: t => if C c = true then some t else none
+
+theorem det_set (cs : CSet) : Det (.set cs) (expect cs.has) := by
+  intro s; cases s with
+  | nil => simp [Re.ends, expect]
+  | cons c t => by_cases hc : cs.has c = true <;> simp [Re.ends, expect, hc]
+
+theorem expect_some (C : Char → Bool) (s e : List Char) :
+    expect C s = some e ↔ ∃ c, s = c :: e ∧ C c = true := by
+  cases s with
+  | nil => simp [expect]
+  | cons c t =>
+    by_cases hc : C c = true
+    · simp only [expect, if_pos hc, Option.some.injEq]
+      constructor
+      · rintro rfl; exact ⟨c, rfl, hc⟩
+      · rintro ⟨c', h, _⟩; simp at h; exact h.2
+    · simp only [expect, if_neg hc]
+      constructor
+      · intro h; simp at h
+      · rintro ⟨c', h, hc'⟩; simp at h; exact absurd (h.1 ▸ hc') hc
+
+theorem det_seq {a b : Re} {fa fb} (ha : Det a fa) (hb : Det b fb) :
+    Det (.seq a b) (fun s => (fa s).bind fb) := by
+  intro s
+  simp only [Re.ends, ha s]
+  cases fa s with
+  | none => simp
+  | some e => simp [hb e]
+
+theorem det_grp {r : Re} {f} (i : Nat) (h : Det r f) : Det (.grp i r) f := by
+  intro s; simp only [Re.ends]; exact h s
+
+def iter (f : List Char → Option (List Char)) : Nat → List Char → Option (List Char)
+  | 0, s => some s
+  | k+1, s => (f s).bind (iter f k)
+
+theorem det_exact {r : Re} {f} (h : Det r f) (hp : ∀ s e, f s = some e → e.length < s.length) (g : Bool) :
+    ∀ k, Det (.rep r k (some k) g) (iter f k) := by
+  intro k
+  induction k with
+  | zero => intro s; rw [ends_rep_exact_zero]; simp [iter]
+  | succ k ih =>
+    intro s
+    rw [ends_rep_exact_succ r g k s (by intro e he; rw [h s] at he; exact hp s e (by simpa using he))]
+    rw [h s]
+    cases hf : f s with
+    | none => simp [iter, hf]
+    | some e => simp [iter, hf, ih e]
+
+theorem det_accepts {r : Re} {f} (h : Det r f) (s : List Char) : r.Accepts s ↔ f s = some [] := by
+  unfold Re.Accepts; rw [h s]; cases f s <;> simp
+
+theorem takeN_length (C : Char → Bool) (n : Nat) (s e : List Char) (h : takeN C n s = some e) :
+    e.length + n = s.length := by
+  obtain ⟨w, rfl, hl, _⟩ := (takeN_some C n s e).1 h
+  simp; omega
+
+/-! ## continuations that always match: the preferred path is the greedy one -/
+
+def Total (r : Re) : Prop := ∀ s, r.ends s ≠ []
+
+theorem head?_flatMap_total {l : List (List Char)} {k : List Char → List (List Char)} (hk : ∀ a, k a ≠ []) :
+    (l.flatMap k).head? = l.head?.bind (fun a => (k a).head?) := by
+  cases l with
+  | nil => rfl
+  | cons a t =>
+    obtain ⟨b, bs, hb⟩ := List.exists_cons_of_ne_nil (hk a)
+    simp [List.flatMap_cons, hb]
+
+theorem head_seq_total (a b : Re) (hb : Total b) (s : List Char) :
+    ((Re.seq a b).ends s).head? = (a.ends s).head?.bind (fun e => (b.ends e).head?) := by
+  simp only [Re.ends]; exact head?_flatMap_total hb
+
+theorem total_seq {a b : Re} (ha : Total a) (hb : Total b) : Total (.seq a b) := by
+  intro s h
+  simp only [Re.ends] at h
+  obtain ⟨e, es, he⟩ := List.exists_cons_of_ne_nil (ha s)
+  rw [he] at h
+  simp at h
+  exact hb e h.1
+
+theorem total_star_set (cs : CSet) : Total (Re.star (.set cs)) := by
+  intro s
+  unfold Re.star
+  rw [ends_rep_set]
+  cases s <;> simp [repSet]
+
+theorem total_opt_set (cs : CSet) : Total (Re.opt (.set cs)) := by
+  intro s
+  rw [ends_opt_set]
+  cases s with
+  | nil => simp
+  | cons c t => by_cases hc : cs.has c = true <;> simp [hc]
+
+theorem total_opt_progress (x : Re) (hp : ∀ s e, e ∈ x.ends s → e.length < s.length) : Total (Re.opt x) := by
+  intro s
+  rw [ends_opt_progress x s (hp s)]
+  simp
+
+theorem dropWhile_append_stop (p : Char → Bool) (b ex : List Char) (hb : ∀ c ∈ b, p c = true)
+    (hex : ex = [] ∨ ∃ c t, ex = c :: t ∧ p c = false) :
+    (b ++ ex).dropWhile p = ex ∧ (b ++ ex).takeWhile p = b := by
+  have h1 : ex.dropWhile p = ex ∧ ex.takeWhile p = [] := by
+    rcases hex with rfl | ⟨c, t, rfl, hc⟩
+    · simp
+    · simp [List.dropWhile_cons, List.takeWhile_cons, hc]
+  constructor
+  · rw [List.dropWhile_append_of_pos hb, h1.1]
+  · rw [List.takeWhile_append_of_pos hb, h1.2, List.append_nil]
+
+theorem dropWhile_head_not (p : Char → Bool) (x : List Char) :
+    x.dropWhile p = [] ∨ ∃ c t, x.dropWhile p = c :: t ∧ p c = false := by
+  induction x with
+  | nil => left; rfl
+  | cons a t ih =>
+    by_cases ha : p a = true
+    · simpa [List.dropWhile_cons, ha] using ih
+    · right; exact ⟨a, t, by simp [List.dropWhile_cons, ha], by simpa using ha⟩
+
 end PP.Regex
